@@ -1,0 +1,32 @@
+//go:build verif
+
+package ha
+
+import (
+	"errors"
+	"time"
+)
+
+// Verification hooks for property C14 (failover controller).  Add-only: they
+// deliver health-check outcomes to the monitor without an HTTP probe (through
+// the real recordFailure/recordSuccess, so the monitor's thresholds, state and
+// handler notifications are exactly the production ones) and expose the
+// controller's timer deadlines read-only (used for state fingerprinting in
+// bounded-exhaustive exploration).  They do not change behaviour.
+
+// VerifRecord records one health-check outcome as performCheck would.
+func (m *HealthMonitor) VerifRecord(ok bool) {
+	if ok {
+		m.recordSuccess(time.Millisecond, "verif-partner", RoleActive, 0)
+		return
+	}
+	_ = m.recordFailure(errors.New("verif: injected health check failure"))
+}
+
+// VerifC14Deadlines returns the instants at which the last armed failover and
+// failback timers fire (zero if never armed).
+func (c *FailoverController) VerifC14Deadlines() (failoverAt, failbackAt time.Time) {
+	c.mu.RLock()
+	defer c.mu.RUnlock()
+	return c.failoverTime, c.failbackTime
+}
